@@ -89,6 +89,8 @@ func main() {
 	}
 	if os.Getenv("HC_LOG") == "" {
 		hclog.Info.Disable()
+	} else if os.Getenv("HC_LOG") == "2" {
+		hclog.Debug.Enable()
 	}
 	fn(c)
 	code := c.finish(pi)
